@@ -1,3 +1,183 @@
-/- C04 — property theorems only (helper lemmas live in `Rooc/Proofs`). -/
+/-
+C04 — Returned solutions are feasible and self-consistent.  PROPERTY THEOREMS ONLY.
+
+Two groups:
+* the certificate checker every returned point is pushed through is SOUND (`checkPoint_sound`): an accepted point
+  gives one value per variable and satisfies every row and every domain (bounds, integrality, 0/1) within the
+  tolerance — over any linearly ordered field `K`;
+* rooc's own mapping code around the external solvers (`Rooc/SolverWrap.lean`, diffed against the Rust on every run):
+  read-back per domain, objective incl. offset, by-name map, named-row map, free-variable recombination.
+The external solvers are parameters (their raw answer is an input of the wrapper functions).
+-/
+import Rooc.Proofs.Cert
+import Rooc.Proofs.SolverWrap
+import Mathlib.Data.Rat.Floor
 namespace Rooc.Props.C04
+open Rooc Rooc.Cert Rooc.SolverWrap
+
+variable {K : Type} [Field K] [LinearOrder K] [IsStrictOrderedRing K] [FloorRing K]
+
+/-! ### the certificate checker -/
+
+/-- `checkPoint p x tol = true` ⇒ `x` has one value per variable and satisfies every row (`≤`, `≥`, `=`) and every
+domain (bounds; integrality `∃ n : ℤ, |x − n| ≤ tol` inside the range; 0/1) within `tol`. -/
+theorem checkPoint_sound (p : Prob K) (x : List K) (tol : K) (h : checkPoint p x tol = true) :
+    FeasibleWithin p x tol := by
+  unfold checkPoint at h
+  simp only [Bool.and_eq_true, List.all_eq_true, decide_eq_true_eq] at h
+  exact ⟨fun r hr => ⟨(h.1 r hr).1, rowHolds_sound (h.1 r hr).2⟩, domsHold_sound x p.doms h.2⟩
+
+/-- with tolerance 0 an accepted point is feasible for the LP relaxation in the exact sense used by C05. -/
+theorem checkPoint_rows_exact (p : Prob K) (x : List K) (h : checkPoint p x 0 = true) :
+    ∀ r ∈ p.rows, r.coeffs.length = x.length ∧ RowSat x r := by
+  unfold checkPoint at h
+  simp only [Bool.and_eq_true, List.all_eq_true, decide_eq_true_eq] at h
+  exact fun r hr => ⟨(h.1 r hr).1, rowHolds_zero_sound (h.1 r hr).2⟩
+
+/-- the recomputed objective is the model's objective function at the point, constant offset included. -/
+theorem objective_eq (p : Prob K) (x : List K) : objective p x = dot p.obj x + p.offset := by
+  simp [objective]
+
+/-! ### rooc's read-back of solver values (`milp_solver.rs:187-195`) -/
+
+/-- an integral raw value inside the `i32` range is read back exactly (`value as i32`). -/
+theorem readBack_int_exact (lo hi n : Int) (h1 : -2147483648 ≤ n) (h2 : n ≤ 2147483647) :
+    readBack (.int lo hi : VarType (Ext K)) (Ext.fin (n : K)) = .int n := by
+  simp only [readBack, Arith.toI32, Ext.toIntSat, ef_lt, ef_ofInt, Int.cast_zero, ef_ceil, ef_floor,
+    Int.ceil_intCast, Int.floor_intCast, ite_self, Ext.clampInt]
+  have a : ¬ n < -2147483648 := not_lt.mpr h1
+  have b : ¬ n > 2147483647 := not_lt.mpr h2
+  simp [a, b]
+
+/-- an exact 0 / 1 is read back as `false` / `true` (`value != 0.0`). -/
+theorem readBack_bool_exact :
+    readBack (.bool : VarType (Ext K)) (Ext.fin 0) = .bool false ∧
+    readBack (.bool : VarType (Ext K)) (Ext.fin 1) = .bool true := by
+  simp [readBack, Arith.ne, Arith.eq, Ext.eq]
+
+/-- continuous values pass through untouched. -/
+theorem readBack_real_exact (lo hi v : Ext K) :
+    readBack (.real lo hi) v = .real v ∧ readBack (.nnreal lo hi) v = .real v := by
+  simp [readBack]
+
+/-- the value read back denotes the same number (so the certificate check speaks about the solver's point). -/
+theorem readBack_exact (ty : VarType (Ext K)) (n : Int) (h1 : -2147483648 ≤ n) (h2 : n ≤ 2147483647)
+    (hb : ty = .bool → n = 0 ∨ n = 1) :
+    (readBack ty (Ext.fin (n : K))).toNum = Ext.fin (n : K) := by
+  cases ty with
+  | real lo hi => simp [readBack, Val.toNum]
+  | nnreal lo hi => simp [readBack, Val.toNum]
+  | int lo hi => rw [readBack_int_exact lo hi n h1 h2]; simp [Val.toNum]
+  | bool =>
+    rcases hb rfl with rfl | rfl
+    · simp [readBack, Val.toNum, Arith.ne, Arith.eq, Ext.eq]
+    · simp [readBack, Val.toNum, Arith.ne, Arith.eq, Ext.eq]
+
+/-- WITHOUT the integrality hypothesis the read-back is not faithful: a `1e-12` noise on a 0/1 variable reads back as
+`true`, and a fractional value of an integer variable is truncated toward zero (not rounded).  This is why the
+interrupted-search point of C15 (fractional working values) turns into a wrong integer point. -/
+theorem readBack_exact_counterexample :
+    readBack (.bool : VarType (Ext K)) (Ext.fin (1 / 1000000000000)) = .bool true ∧
+    readBack (.int 0 5 : VarType (Ext K)) (Ext.fin (29999 / 10000)) = .int 2 := by
+  constructor
+  · simp [readBack, Arith.ne, Arith.eq, Ext.eq]
+  · have hfl : Int.floor ((29999 : K) / 10000) = 2 := by
+      rw [Int.floor_eq_iff]; constructor <;> norm_num
+    have hpos : ¬ ((29999 : K) / 10000 < 0) := by norm_num
+    simp [readBack, Arith.toI32, Ext.toIntSat, Ext.clampInt, hfl, hpos]
+
+/-! ### objective with offset, by-name map -/
+
+/-- `calc_objective` on finite data is `obj·x + offset` (this is the value the Clarabel path reports; the microlp
+paths report `solver objective + offset`). -/
+theorem calcObjective_exact (lm : LinModel (Ext K)) (c x : List K) (off : K)
+    (hobj : lm.objective = c.map Ext.fin) (hoff : lm.offset = Ext.fin off) (hlen : x.length = c.length) :
+    calcObjective lm (x.map Ext.fin) = some (Ext.fin (dot c x + off)) := by
+  unfold calcObjective
+  simp [hobj, hoff, hlen, sumProducts_fin]
+
+omit [Field K] [LinearOrder K] [IsStrictOrderedRing K] [FloorRing K] in
+/-- `LpSolution::value_of`: with duplicated names the FIRST assignment wins (so on a well-formed model, whose names
+are distinct, every variable has exactly the value of its only assignment). -/
+theorem valueOf_first_duplicate_wins (s : Solution (Ext K)) (name : String) :
+    s.valueOf name = (s.assignment.find? (fun p => p.1 == name)).map (·.2) := by
+  unfold Solution.valueOf
+  exact buildAssignmentMap_get s.assignment name
+
+/-- the MILP wrapper reports one assignment per variable, in the model's order, when microlp returns one value per
+column. -/
+theorem wrapMilp_one_value_per_variable (lm : LinModel (Ext K)) (st : MlpStatus) (obj : Ext K) (vals : List (Ext K))
+    (s : Solution (Ext K)) (hlen : vals.length = lm.vars.length)
+    (h : wrapMilp lm (.ok st obj vals) = .ok s) :
+    s.assignment.map (·.1) = lm.vars ∧ s.value = Arith.add obj lm.offset := by
+  unfold wrapMilp at h
+  split at h
+  · simp at h
+  · split at h
+    · simp at h
+    · split at h
+      · simp at h
+      · simp only at h
+        cases hc : constraintsMap lm vals with
+        | none => simp [hc] at h
+        | some cm =>
+          simp only [hc, Res.ok.injEq] at h
+          subst h
+          refine ⟨?_, rfl⟩
+          simp only [lpSolutionNew, zipNames, List.map_map]
+          refine Eq.trans (List.map_congr_left (g := Prod.fst) ?_) (List.map_fst_zip (le_of_eq hlen.symm))
+          intro x _
+          simp only [Function.comp]
+          split <;> rfl
+
+/-! ### tableau simplex: mapping the standard-form solution back (`as_lp_solution`) -/
+
+/-- the name carries none of the internal prefixes the mapping looks at. -/
+def plainName (n : String) : Bool :=
+  !(n.startsWith "$su_" || n.startsWith "$sl_" || n.startsWith "$a_" || n.startsWith "$m" || n.startsWith "$p")
+
+/-- (partial: names without internal prefixes) a plain variable keeps its name and value. -/
+theorem asLpAssignment_plain_partial (names : List String) (values : List (Ext K))
+    (h : names.all plainName = true) :
+    asLpAssignment names values = (zipNames names values).map fun p => (p.1, Val.real p.2) := by
+  unfold asLpAssignment
+  simp only
+  rw [← List.filterMap_eq_map]
+  apply List.filterMap_congr
+  intro p hp
+  have hn : plainName p.1 = true := by
+    have := List.of_mem_zip hp
+    exact (List.all_eq_true.mp h) p.1 this.1
+  simp only [plainName, Bool.not_eq_true', Bool.or_eq_false_iff] at hn
+  obtain ⟨⟨⟨⟨h1, h2⟩, h3⟩, h4⟩, h5⟩ := hn
+  simp [h1, h2, h3, stripPrefix, h4, h5]
+
+/-- the split halves `$p‹v›`, `$m‹v›` of a free variable are recombined into `v = p − m`, slack / surplus /
+artificial columns are dropped. -/
+theorem asLpAssignment_split_example (p m s : K) :
+    asLpAssignment ["$px", "$mx", "$sl_0"] [Ext.fin p, Ext.fin m, Ext.fin s]
+      = [("x", Val.real (Ext.fin (p - m)))] := by
+  have l1 : "$p".length = 2 := by decide
+  have l2 : "$m".length = 2 := by decide
+  have e1 : "$m" ++ String.ofList ['x'] = "$mx" := by decide
+  have e2 : "$p" ++ String.ofList ['x'] = "$px" := by decide
+  have e3 : String.ofList ['x'] = "x" := by decide
+  simp [asLpAssignment, zipNames, imCollect, imInsert, imGet, stripPrefix, l1, l2, e1, e2, e3]
+
+/-- COUNTEREXAMPLE to "every variable keeps exactly one value" for names that collide with the internal prefixes: a
+user variable called `$sl_x` is dropped by the name-prefix test. -/
+theorem asLpAssignment_prefix_collision_counterexample (v : Ext K) :
+    asLpAssignment ["$sl_x"] [v] = [] := by
+  simp [asLpAssignment, zipNames]
+
+/-! ### non-vacuity -/
+
+/-- `x + y ≤ 3`, `x` integer in `0..5`, `y ∈ {0,1}` at `(2, 1)`. -/
+example : @checkPoint ℚ (fieldExact ℚ)
+    ⟨.min, [1, 1], 0, [⟨[1, 1], .le, 3⟩], [.int 0 5, .bool]⟩ [2, 1] (1 / 1000000) = true := by
+  have hfl : Int.floor ((2 : ℚ) + 1 / 2) = 2 := by
+    rw [Int.floor_eq_iff]; constructor <;> norm_num
+  simp [checkPoint, rowHolds, domsHold, domHolds, roundK, absK]
+  norm_num [hfl]
+
 end Rooc.Props.C04
